@@ -6,7 +6,7 @@ use structmeta::{Flag, NameArgs, NameValue, Parse, StructMeta};
 use syn::{
     ext::IdentExt, parse::Parse, parse2, parse_quote, spanned::Spanned, token, Attribute, Data, DataEnum,
     DataStruct, DeriveInput, Error, Expr, ExprLit, Field, Fields, Ident, Index, ItemEnum,
-    ItemStruct, Lit, Meta, Path, Result, Type, Variant,
+    ItemStruct, Lit, Meta, Path, Result, Type, TypeGroup, TypeParamBound, TypeParen, Variant,
 };
 
 use crate::{
@@ -790,19 +790,33 @@ fn build_deref_for_struct(
     }
     let target_ty = &ref_target(&fields[0].field.ty);
     let member = fields[0].member();
+    // Behind `&`, a trait object without a lifetime bound would get the lifetime of the reference,
+    // while in `type Target = dyn Tr;` (as in the field) it is `'static`.
+    let mut ret_ty = target_ty.clone();
+    {
+        let mut inner = &mut ret_ty;
+        while let Type::Paren(TypeParen { elem, .. }) | Type::Group(TypeGroup { elem, .. }) = inner {
+            inner = elem;
+        }
+        if let Type::TraitObject(t) = inner {
+            if !t.bounds.iter().any(|b| matches!(b, TypeParamBound::Lifetime(_))) {
+                t.bounds.push(parse_quote!('static));
+            }
+        }
+    }
 
     let content = match kind {
         DeriveItemKind::Deref => {
             quote! {
                 type Target = #target_ty;
-                fn deref(&self) -> & #target_ty {
+                fn deref(&self) -> & #ret_ty {
                     &self.#member
                 }
             }
         }
         DeriveItemKind::DerefMut => {
             quote! {
-                fn deref_mut(&mut self) -> &mut #target_ty {
+                fn deref_mut(&mut self) -> &mut #ret_ty {
                     &mut self.#member
                 }
             }
